@@ -51,3 +51,110 @@ def trueTile (L N W : Nat) (B : List H) : List H :=
 def tileHash (es : List H) : H := mth node empty es
 
 end TileAuth
+
+namespace TileAuth
+open Merkle
+variable {H : Type} (node : H → H → H) (empty : H)
+
+/-! ### executable reader: what the driver runs against `tlog.TileHashReader` (engine `tilereader`) -/
+
+/-- a fetched hash tile: coordinates and entries (the width is the number of entries) -/
+structure TileData (H : Type) where
+  L : Nat
+  N : Nat
+  es : List H
+
+def findTile (tiles : List (TileData H)) (L N W : Nat) : Option (List H) :=
+  (tiles.find? fun t => t.L == L && t.N == N && t.es.length == W).map (·.es)
+
+/-- the right-edge tile of level `L` among the fetched tiles (`[]` when the size prescribes none) -/
+def edgeAt (n : Nat) (tiles : List (TileData H)) (L : Nat) : Option (List H) :=
+  if edgeWidth n L = 0 then some [] else findTile tiles L (n / 256 ^ L / 256) (edgeWidth n L)
+
+def edgesFn (n : Nat) (tiles : List (TileData H)) : Nat → List H := fun L => (edgeAt n tiles L).getD []
+
+/-- recombination of the edge tiles of levels `0 … L-1` -/
+def edgeFx (e : Nat → List H) : Nat → Option H
+  | 0 => none
+  | L + 1 => edgeStep node empty (edgeFx e L) (e L)
+
+/-- the content of tile `(L, N)` once it is authenticated: the edge tile of its level, or a full tile that hashes
+    to its entry in the (authenticated) parent -/
+def chainUp [DecidableEq H] : Nat → Nat → List (TileData H) → Nat → Nat → Option (List H)
+  | 0, _, _, _, _ => none
+  | fuel + 1, n, tiles, L, N =>
+    if N = n / 256 ^ L / 256 then edgeAt n tiles L
+    else match findTile tiles L N 256, chainUp fuel n tiles (L + 1) (N / 256) with
+      | some es, some pes => if pes[N % 256]? = some (tileHash node empty es) then some es else none
+      | _, _ => none
+
+/-- number of tile levels of a tree of `n` leaves (at most 8: 64-bit sizes) -/
+def numLevels (n : Nat) : Nat := ((List.range 9).find? fun T => n < 256 ^ T).getD 9
+
+/-- `ReadHashes([StoredHashIndex(0, i)])`: the record hash of leaf `i`, or refusal -/
+def readLeafHash [DecidableEq H] (n : Nat) (root : H) (tiles : List (TileData H)) (i : Nat) : Option H :=
+  let T := numLevels n
+  if n = 0 ∨ n ≤ i ∨ ¬ n < 256 ^ T then none
+  else if !((List.range T).all fun L => (edgeAt n tiles L).isSome) then none
+  else if edgeFx node empty (edgesFn n tiles) T ≠ some root then none
+  else match chainUp node empty (T + 1) n tiles 0 (i / 256) with
+    | some es => es[i % 256]?
+    | none => none
+
+end TileAuth
+
+namespace TileAuth
+open Merkle
+variable {H : Type} (node : H → H → H) (empty : H)
+
+/-! ### `tlog.TileHashReader` AS IT IS at the pinned version (finding F10)
+
+`ReadHashes` authenticates the non-edge tiles it fetched in a loop that starts at index `len(stx)` of its tile list,
+where `stx` are the PEAKS of the tree (one per set bit of the size), although the edge tiles that open the list are
+fewer whenever two peaks share a tile (one per tile level with a non-empty edge tile). The first
+`popcount n − #edge tiles` tiles of the parent chain — the highest ones — are therefore never compared with their parent
+entry. `readLeafHashTlog` is the reader with exactly that omission; `readLeafHash` (above) is the reader without it,
+which is the one `readLeafHash_sound` is about. The driver compares the real code with `readLeafHashTlog`. -/
+
+def popcount : Nat → Nat → Nat
+  | 0, _ => 0
+  | fuel + 1, n => if n = 0 then 0 else n % 2 + popcount fuel (n / 2)
+
+/-- number of tile levels whose right-edge tile is not empty -/
+def edgeTileCount (n : Nat) : Nat := ((List.range 9).filter fun L => edgeWidth n L != 0).length
+
+/-- how many fetched non-edge tiles `ReadHashes` leaves unauthenticated -/
+def tlogSkipped (n : Nat) : Nat := popcount 64 n - edgeTileCount n
+
+/-- number of non-edge tiles on the way up from the level-0 tile `N0` -/
+def chainLen : Nat → Nat → Nat → Nat → Nat
+  | 0, _, _, _ => 0
+  | fuel + 1, n, L, N => if N = n / 256 ^ L / 256 then 0 else 1 + chainLen fuel n (L + 1) (N / 256)
+
+/-- `chainUp` with the parent comparison of the tile at level `L` performed only when `chk L` -/
+def chainUpChk [DecidableEq H] (chk : Nat → Bool) : Nat → Nat → List (TileData H) → Nat → Nat → Option (List H)
+  | 0, _, _, _, _ => none
+  | fuel + 1, n, tiles, L, N =>
+    if N = n / 256 ^ L / 256 then edgeAt n tiles L
+    else match findTile tiles L N 256, chainUpChk chk fuel n tiles (L + 1) (N / 256) with
+      | some es, some pes =>
+        if chk L then (if pes[N % 256]? = some (tileHash node empty es) then some es else none)
+        else (if (pes[N % 256]?).isSome then some es else none)   -- the parent entry must exist (HashFromTile), nothing more
+      | _, _ => none
+
+def readLeafHashWith [DecidableEq H] (chk : Nat → Bool) (n : Nat) (root : H) (tiles : List (TileData H)) (i : Nat) : Option H :=
+  let T := numLevels n
+  if n = 0 ∨ n ≤ i ∨ ¬ n < 256 ^ T then none
+  else if !((List.range T).all fun L => (edgeAt n tiles L).isSome) then none
+  else if edgeFx node empty (edgesFn n tiles) T ≠ some root then none
+  else match chainUpChk node empty chk (T + 1) n tiles 0 (i / 256) with
+    | some es => es[i % 256]?
+    | none => none
+
+/-- the pinned `tlog.TileHashReader`: the tile at level `L` of a chain of `m` non-edge tiles sits at position `m-1-L`
+    behind the edge tiles; it is compared with its parent only from position `tlogSkipped n` on -/
+def readLeafHashTlog [DecidableEq H] (n : Nat) (root : H) (tiles : List (TileData H)) (i : Nat) : Option H :=
+  let m := chainLen 9 n 0 (i / 256)
+  readLeafHashWith node empty (fun L => decide (tlogSkipped n ≤ m - 1 - L)) n root tiles i
+
+end TileAuth
